@@ -292,7 +292,8 @@ def h_auto(eng, u, v, option):
     for name, r, pr in (("mul", a * b, pa * pb), ("div", a / b, pa / pb)):
         eng.prove(dict(r.dimensionality) == dict(pr.dimensionality), f"{option}:{name}:dimensionality")
         va, vb = _root(pr), _root(r)
-        if any(Fraction(str(e.c if hasattr(e, "c") else e)).denominator != 1 for e in r._units.values()) or isinstance(va, float) or isinstance(vb, float):
+        if any(Fraction(str(e.c if hasattr(e, "c") else e)).denominator != 1 for e in r._units.values()) or isinstance(va, float) or isinstance(vb, float) or getattr(va, "inexact", False) or getattr(vb, "inexact", False):
+            # (exponents found by the float MIP search: the value went through float arithmetic)
             eng.prove(abs(va - vb) <= abs(va) * Fraction(1, 10**9), f"{option}:{name}:value")
         else:
             eng.prove(Eq(va, vb), f"{option}:{name}:value")
